@@ -394,8 +394,17 @@ class Executor:
                 self_.parts.append(data)
                 return len(data)
 
+            def writelines(self_, lines):
+                for line in lines:
+                    self_.write(line)
+
             def flush(self_):
                 pass
+
+            def writable(self_):
+                return True
+
+            closed = False
 
         w = Writer()
         self._writer_failed = False
